@@ -7,16 +7,16 @@
    [problem_desc]) so that the extractor [spec_features] of C10.v is reused for the common features, plus one short
    clause per class-specific feature.
 
-   Proved:   contingent (full); multi-agent, hierarchical, scheduling: `_partial` (the proved specification), with the
-   FULL statement kept as a `_goal` Definition in Model/KindOfClasses.v and REFUTED here by a concrete witness where
-   the class's kind never reads a position (the same behaviour is reproduced on the real code by
-   /verif/notes/C10_classes_repro.py):
-     - multi-agent: MultiAgentProblem.kind computes only the 15 common features of [ma_mask]; the 23 features of
-       [ma_missed] (fluent / action parameter kinds, interpreted functions, continuous effects, fluents in assignments
-       and durations, duration types / inequalities, undefined initial values) are never reported;
-     - hierarchical: the types of method / task parameters and task-network variables are never visited;
-     - scheduling: the decision variables of the base chronicle (add_variable) are never visited; and the class has no
-       static-fluent analysis (STATIC_FLUENTS_IN_x is reported as FLUENTS_IN_x: [unstatic]). *)
+   Proved:   contingent, hierarchical and scheduling in FULL (the latter two after the repairs c453608 and c7cadef of
+   /repo, which made HierarchicalProblem.kind visit the types of task / method parameters and task-network variables and
+   SchedulingProblem.kind analyse the decision variables of the base chronicle; before them the full statements were
+   refuted by the witnesses [ex_hier_typing] and [ex_sched_vars], now positive examples);
+   multi-agent: `_partial` (the 15 common features MultiAgentProblem.kind computes at all + the agent-goal features), the
+   FULL statement is kept as `kind_covers_features_multi_agent_goal` and REFUTED here: the 23 features of [ma_missed]
+   (fluent / action parameter kinds, interpreted functions, continuous effects, fluents in assignments and durations,
+   duration types / inequalities, undefined initial values) are never reported (open finding
+   C10-ma-kind-misses-common-features, reproduced on the real code by /verif/corpus/c10_classes_repro.py).
+   Scheduling has no static-fluent analysis: STATIC_FLUENTS_IN_x is reported as FLUENTS_IN_x ([unstatic]). *)
 From Coq Require Import List ZArith NArith Bool.
 Import ListNotations.
 Require Import UPV.Core.Expr UPV.Model.Kind UPV.Gen.Gen_Kind UPV.Model.KindOf UPV.Model.KindOfClasses
@@ -139,11 +139,12 @@ Print Assumptions C10_kind_covers_features_multi_agent_goal_false.
 (* ============================================================================================== HIERARCHICAL *)
 (* hypothesis: the flattened view (base problem + method preconditions + non-temporal constraints as conditions) is
    well-formed.  Covers all common features and HIERARCHICAL, METHOD_PRECONDITIONS, TASK_NETWORK_CONSTRAINTS,
-   INITIAL_TASK_NETWORK_VARIABLES, TASK_ORDER_TOTAL / PARTIAL / TEMPORAL. *)
-Theorem C10_kind_covers_features_hierarchical_partial :
-  forall H, wf_hier H -> incl (spec_hier H) (kind_hier H).
-Proof. exact covers_hier. Qed.
-Print Assumptions C10_kind_covers_features_hierarchical_partial.
+   INITIAL_TASK_NETWORK_VARIABLES, TASK_ORDER_TOTAL / PARTIAL / TEMPORAL, and ([spec_hier_params]) the typing of task
+   parameters, method parameters and task-network variables.  FULL: this is kind_covers_features_hierarchical_goal. *)
+Theorem C10_kind_covers_features_hierarchical :
+  forall H, wf_hier H -> incl (spec_hier_full H) (kind_hier H).
+Proof. exact covers_hier_full. Qed.
+Print Assumptions C10_kind_covers_features_hierarchical.
 
 (* a durative action whose duration is an int fluent that only a method precondition reads besides (so INT_FLUENTS is
    due to the overridden unused-fluent analysis), the only quantifier / disjunction in a method precondition, the only
@@ -169,11 +170,11 @@ Example C10_kind_covers_features_hierarchical_nonvacuous :
                          ; f_STATIC_FLUENTS_IN_DURATIONS; f_INT_TYPE_DURATIONS
                          ; f_HIERARCHICAL; f_METHOD_PRECONDITIONS; f_TASK_NETWORK_CONSTRAINTS
                          ; f_INITIAL_TASK_NETWORK_VARIABLES; f_TASK_ORDER_PARTIAL ]
-  /\ incl (spec_hier ex_hier) (kind_hier ex_hier).
-Proof. split; [reflexivity|]. split; [vm_compute; reflexivity|]. apply C10_kind_covers_features_hierarchical_partial. reflexivity. Qed.
+  /\ incl (spec_hier_full ex_hier) (kind_hier ex_hier).
+Proof. split; [reflexivity|]. split; [vm_compute; reflexivity|]. apply C10_kind_covers_features_hierarchical. reflexivity. Qed.
 
-(* the full statement (typing of method / task parameters and task-network variables included) is false: a subtype that
-   only a task parameter, a method parameter and a task-network variable mention (genuine defect, reproduced) *)
+(* the position repaired by c453608: a subtype that only a task parameter, a method parameter and a task-network variable
+   mention (before the repair HIERARCHICAL_TYPING was missing from the kind of this problem) *)
 Definition T1sub : ty := TUser 1 true.
 Definition ex_hier_typing : hier_desc :=
   {| hp_base := {| p_fluents := [fd 1 TBool [T0] true 1 1]; p_objtys := [T0];
@@ -185,27 +186,20 @@ Definition ex_hier_typing : hier_desc :=
      hp_task_params := [T1sub];
      hp_methods := [ {| me_params := [T1sub]; me_pre := []; me_constraints := []; me_lvl := 0; me_subtask_args := [EParam 1] |} ];
      hp_tn_vars := [T1sub]; hp_tn_constraints := []; hp_tn_lvl := 0 |}.
-Theorem C10_kind_covers_features_hierarchical_refuted :
-  exists H, wf_hier H /\ In f_HIERARCHICAL_TYPING (spec_hier_params H) /\ memN f_HIERARCHICAL_TYPING (kind_hier H) = false.
-Proof. exists ex_hier_typing. split; [reflexivity|]. split; [left; reflexivity | vm_compute; reflexivity]. Qed.
-Print Assumptions C10_kind_covers_features_hierarchical_refuted.
-
-Theorem C10_kind_covers_features_hierarchical_goal_false : ~ kind_covers_features_hierarchical_goal.
-Proof.
-  intro G. specialize (G ex_hier_typing eq_refl f_HIERARCHICAL_TYPING).
-  assert (X : In f_HIERARCHICAL_TYPING (spec_hier ex_hier_typing ++ spec_hier_params ex_hier_typing))
-    by (apply KindOf_proofs.memN_In; vm_compute; reflexivity).
-  apply G in X. apply KindOf_proofs.memN_In in X. vm_compute in X. discriminate X.
-Qed.
-Print Assumptions C10_kind_covers_features_hierarchical_goal_false.
+Example C10_kind_covers_features_hierarchical_params_nonvacuous :
+  wf_hier ex_hier_typing /\ In f_HIERARCHICAL_TYPING (spec_hier_params ex_hier_typing)
+  /\ memN f_HIERARCHICAL_TYPING (kind_hier ex_hier_typing) = true.
+Proof. split; [reflexivity|]. split; [left; reflexivity | vm_compute; reflexivity]. Qed.
 
 (* ================================================================================================ SCHEDULING *)
 (* hypothesis: the flattened view (activities as durative actions, base conditions / effects as timed goals / effects,
    constraints as conditions) is well-formed.  The STATIC_FLUENTS_IN_x clauses are read as FLUENTS_IN_x ([unstatic]). *)
-Theorem C10_kind_covers_features_scheduling_partial :
-  forall S, wf_sched S -> incl (spec_sched S) (kind_sched S).
-Proof. exact covers_sched. Qed.
-Print Assumptions C10_kind_covers_features_scheduling_partial.
+(* FULL (kind_covers_features_scheduling_goal): [spec_sched_full] also has the parameter-kind and typing clauses of the
+   decision variables of the base chronicle *)
+Theorem C10_kind_covers_features_scheduling :
+  forall S, wf_sched S -> incl (spec_sched_full S) (kind_sched S).
+Proof. exact covers_sched_full. Qed.
+Print Assumptions C10_kind_covers_features_scheduling.
 
 (* an optional activity with an int parameter whose duration reads a (never written) int fluent and which decreases a
    bounded resource at its start and increases it at its end; a scoped disjunctive constraint; a base condition *)
@@ -227,29 +221,20 @@ Example C10_kind_covers_features_scheduling_nonvacuous :
                            ; f_DISJUNCTIVE_CONDITIONS; f_INCREASE_EFFECTS; f_DECREASE_EFFECTS; f_FLUENTS_IN_DURATIONS
                            ; f_INT_TYPE_DURATIONS; f_DURATION_INEQUALITIES; f_TIMED_GOALS; f_MAKESPAN
                            ; f_SCHEDULING; f_OPTIONAL_ACTIVITIES; f_SCOPED_CONSTRAINTS ]
-  /\ incl (spec_sched ex_sched) (kind_sched ex_sched).
-Proof. split; [reflexivity|]. split; [vm_compute; reflexivity|]. apply C10_kind_covers_features_scheduling_partial. reflexivity. Qed.
+  /\ incl (spec_sched_full ex_sched) (kind_sched ex_sched).
+Proof. split; [reflexivity|]. split; [vm_compute; reflexivity|]. apply C10_kind_covers_features_scheduling. reflexivity. Qed.
 
-(* the full statement (decision variables of the base chronicle included) is false (genuine defect, reproduced) *)
+(* the position repaired by c7cadef: decision variables of the base chronicle (before the repair none of the three
+   features was in the kind of this problem) *)
 Definition ex_sched_vars : sched_desc :=
   {| sp_fluents := []; sp_objtys := []; sp_metrics := []; sp_vars := [TInt true true; TBool; TUser 1 true];
      sp_conds := []; sp_effs := []; sp_constraints := [(cx (EOr [EParam 1; ELt (EParam 0) (EInt 2)]), false)];
      sp_activities := []; sp_discrete := true; sp_selfoverlap := false |}.
-Theorem C10_kind_covers_features_scheduling_refuted :
-  exists S, wf_sched S
-            /\ forallb (fun f => memN f (spec_sched_vars S) && negb (memN f (kind_sched S)))
-                       [f_BOUNDED_INT_ACTION_PARAMETERS; f_BOOL_ACTION_PARAMETERS; f_HIERARCHICAL_TYPING] = true.
-Proof. exists ex_sched_vars. split; vm_compute; reflexivity. Qed.
-Print Assumptions C10_kind_covers_features_scheduling_refuted.
-
-Theorem C10_kind_covers_features_scheduling_goal_false : ~ kind_covers_features_scheduling_goal.
-Proof.
-  intro G. specialize (G ex_sched_vars eq_refl f_BOOL_ACTION_PARAMETERS).
-  assert (X : In f_BOOL_ACTION_PARAMETERS (spec_sched ex_sched_vars ++ spec_sched_vars ex_sched_vars))
-    by (apply KindOf_proofs.memN_In; vm_compute; reflexivity).
-  apply G in X. apply KindOf_proofs.memN_In in X. vm_compute in X. discriminate X.
-Qed.
-Print Assumptions C10_kind_covers_features_scheduling_goal_false.
+Example C10_kind_covers_features_scheduling_vars_nonvacuous :
+  wf_sched ex_sched_vars
+  /\ forallb (fun f => memN f (spec_sched_vars ex_sched_vars) && memN f (kind_sched ex_sched_vars))
+             [f_BOUNDED_INT_ACTION_PARAMETERS; f_BOOL_ACTION_PARAMETERS; f_HIERARCHICAL_TYPING] = true.
+Proof. split; vm_compute; reflexivity. Qed.
 
 (* literal reading of the STATIC_ clauses: the never-written fluent in the duration of [ex_sched] is reported as
    FLUENTS_IN_DURATIONS, not STATIC_FLUENTS_IN_DURATIONS (over-approximation towards the more general feature) *)
